@@ -52,9 +52,8 @@ TAlloc ==
          keys == {<<Ev.pid, Ev.v + i>> : i \in 0..(n - 1)} IN
      /\ Ev.v = NextV(Ev.pid)                      \* fresh virtual range right at the cursor
      /\ keys \subseteq DOMAIN t
-     /\ LET ps == [i \in 1..n |-> t[<<Ev.pid, Ev.v + i - 1>>].ppn] IN
-        \/ Alloc(Ev.pid, Ev.dev, ps) /\ pt' = t
-        \/ AllocAliased(Ev.pid, Ev.dev, ps) /\ pt' = t /\ Note({"BuddyCorruptsFreeLists"})
+     /\ Alloc(Ev.pid, Ev.dev, [i \in 1..n |-> t[<<Ev.pid, Ev.v + i - 1>>].ppn])
+     /\ pt' = t
   /\ aligned' = (aligned /\ WellFormed(Ev.pt) /\ Ev.voff = 0) /\ UNCHANGED psz
   /\ bctx' = Append(bctx, Ev.ctx)
 
@@ -106,6 +105,13 @@ TMig ==
      /\ pt' = t
   /\ aligned' = (aligned /\ WellFormed(Ev.pt) /\ Ev.voff = 0) /\ UNCHANGED <<psz, bctx>>
 
+\* Buddy allocator only (deviation BuddyCorruptsFreeLists): the call handed out a live page.  Terminal.
+TAliased ==
+  /\ l <= N /\ Ev.e \in {"Alloc", "Remap", "Dist", "Mig"} /\ l' = l + 1
+  /\ NoDupKeys(Ev.pt)
+  /\ AliasedEnd(LPT(Ev.pt)) /\ Note({"BuddyCorruptsFreeLists"})
+  /\ Seen(Ev.pt)
+
 \* The real code panicked inside a call.  Accepted only where the specification says the call cannot succeed:
 \* the device is exhausted (legitimately, or because of pages a listed deviation leaked), or the as-implemented
 \* Free trips over an entry of another process.
@@ -121,9 +127,10 @@ TPanic ==
            \/ OutOfMemoryBuddy(Targets(Ev.dev), Pages(Ev.bytes), FALSE)
         /\ Note(devUsed' \ dvBefore)
      \/ /\ Ev.op = "Dist" /\ Len(Ev.gpus) > 1
-        /\ OutOfMemory({Ev.gpus[j] : j \in 1..Len(Ev.gpus)}, DistMax(Pages(Ev.bytes), Len(Ev.gpus)), FALSE)
+        /\ LET T == {Ev.gpus[j] : j \in 1..Len(Ev.gpus)}  m == DistMax(Pages(Ev.bytes), Len(Ev.gpus)) IN
+           OutOfMemory(T, m, FALSE) \/ OutOfMemoryBuddy(T, m, FALSE)
         /\ Note(devUsed' \ dvBefore)
-     \/ /\ Ev.op = "Mig" /\ OutOfMemory({Ev.gpu}, 1, FALSE)
+     \/ /\ Ev.op = "Mig" /\ (OutOfMemory({Ev.gpu}, 1, FALSE) \/ OutOfMemoryBuddy({Ev.gpu}, 1, FALSE))
         /\ Note(devUsed' \ dvBefore)
      \/ /\ Ev.op = "Free" /\ Ev.b \in 1..Len(bufs) /\ FreeCrash(Ev.pid, Ev.b)
         /\ Note(devUsed' \ dvBefore)
@@ -152,7 +159,7 @@ TReset ==
   /\ bufs' = <<>> /\ held' = {} /\ devUsed' = {} /\ crashed' = FALSE
   /\ psz' = Ev.psz /\ aligned' = TRUE /\ bctx' = <<>>
 
-TNext == TAlloc \/ TFree \/ TRemap \/ TDist \/ TMig \/ TLaunch \/ TCopyOut \/ TPanic \/ TEnd \/ TReset
+TNext == TAlloc \/ TAliased \/ TFree \/ TRemap \/ TDist \/ TMig \/ TLaunch \/ TCopyOut \/ TPanic \/ TEnd \/ TReset
 
 TSpec == TInit /\ [][TNext]_tvars
 
